@@ -26,7 +26,7 @@ package postgres
 //@ ensures err != nil ==> result == nil
 
 //@ func (*PostgresStoreWorker).createPromiseAndTask
-//@ props C17 C01 C03 C06 C08 C02
+//@ props C17 C01 C03 C06 C08 C02 C20
 //@ nopanic C13
 //@ ghostdb store
 //@ stmt promiseStmt PROMISE_INSERT_STATEMENT
@@ -42,7 +42,7 @@ package postgres
 //@ ensures err != nil ==> result == nil
 
 //@ func (*PostgresStoreWorker).updatePromise
-//@ props C17 C01 C03 C04 C02
+//@ props C17 C01 C03 C04 C02 C20
 //@ nopanic C13
 //@ ghostdb store
 //@ stmt stmt PROMISE_UPDATE_STATEMENT
@@ -54,7 +54,7 @@ package postgres
 //@ ensures err != nil ==> result == nil
 
 //@ func (*PostgresStoreWorker).createCallback
-//@ props C17 C05 C02
+//@ props C17 C05 C02 C20
 //@ nopanic C13
 //@ ghostdb store
 //@ stmt stmt CALLBACK_INSERT_STATEMENT
@@ -65,7 +65,7 @@ package postgres
 //@ ensures err != nil ==> result == nil
 
 //@ func (*PostgresStoreWorker).deleteCallbacks
-//@ props C17 C05 C02
+//@ props C17 C05 C02 C20
 //@ nopanic C13
 //@ ghostdb store
 //@ stmt stmt CALLBACK_DELETE_STATEMENT
@@ -75,7 +75,7 @@ package postgres
 //@ ensures err != nil ==> result == nil
 
 //@ func (*PostgresStoreWorker).readSchedule
-//@ props C17 C10 C02
+//@ props C17 C10 C02 C20
 //@ nopanic C13
 //@ ghostdb store
 //@ requires cmd != nil
@@ -84,7 +84,7 @@ package postgres
 //@ ensures err != nil ==> result == nil
 
 //@ func (*PostgresStoreWorker).createSchedule
-//@ props C17 C10 C02
+//@ props C17 C10 C02 C20
 //@ nopanic C13
 //@ ghostdb store
 //@ stmt stmt SCHEDULE_INSERT_STATEMENT
@@ -95,7 +95,7 @@ package postgres
 //@ ensures err != nil ==> result == nil
 
 //@ func (*PostgresStoreWorker).updateSchedule
-//@ props C17 C10 C02
+//@ props C17 C10 C02 C20
 //@ nopanic C13
 //@ ghostdb store
 //@ stmt stmt SCHEDULE_UPDATE_STATEMENT
@@ -105,7 +105,7 @@ package postgres
 //@ ensures err != nil ==> result == nil
 
 //@ func (*PostgresStoreWorker).deleteSchedule
-//@ props C17 C10 C02
+//@ props C17 C10 C02 C20
 //@ nopanic C13
 //@ ghostdb store
 //@ stmt stmt SCHEDULE_DELETE_STATEMENT
@@ -115,7 +115,7 @@ package postgres
 //@ ensures err != nil ==> result == nil
 
 //@ func (*PostgresStoreWorker).readLock
-//@ props C17 C09 C02
+//@ props C17 C09 C02 C20
 //@ nopanic C13
 //@ ghostdb store
 //@ requires cmd != nil
@@ -124,7 +124,7 @@ package postgres
 //@ ensures err != nil ==> result == nil
 
 //@ func (*PostgresStoreWorker).acquireLock
-//@ props C17 C09 C02
+//@ props C17 C09 C02 C20
 //@ nopanic C13
 //@ ghostdb store
 //@ stmt stmt LOCK_ACQUIRE_STATEMENT
@@ -134,7 +134,7 @@ package postgres
 //@ ensures err != nil ==> result == nil
 
 //@ func (*PostgresStoreWorker).releaseLock
-//@ props C17 C09 C02
+//@ props C17 C09 C02 C20
 //@ nopanic C13
 //@ ghostdb store
 //@ stmt stmt LOCK_RELEASE_STATEMENT
@@ -144,7 +144,7 @@ package postgres
 //@ ensures err != nil ==> result == nil
 
 //@ func (*PostgresStoreWorker).hearbeatLocks
-//@ props C17 C09 C02
+//@ props C17 C09 C02 C20
 //@ nopanic C13
 //@ ghostdb store
 //@ stmt stmt LOCK_HEARTBEAT_STATEMENT
@@ -154,7 +154,7 @@ package postgres
 //@ ensures err != nil ==> result == nil
 
 //@ func (*PostgresStoreWorker).timeoutLocks
-//@ props C17 C09 C02
+//@ props C17 C09 C02 C20
 //@ nopanic C13
 //@ ghostdb store
 //@ stmt stmt LOCK_TIMEOUT_STATEMENT
@@ -164,7 +164,7 @@ package postgres
 //@ ensures err != nil ==> result == nil
 
 //@ func (*PostgresStoreWorker).readTask
-//@ props C17 C07 C02
+//@ props C17 C07 C02 C20
 //@ nopanic C13
 //@ ghostdb store
 //@ requires cmd != nil
@@ -173,7 +173,7 @@ package postgres
 //@ ensures err != nil ==> result == nil
 
 //@ func (*PostgresStoreWorker).createTask
-//@ props C17 C08 C02
+//@ props C17 C08 C02 C20
 //@ nopanic C13
 //@ ghostdb store
 //@ stmt stmt TASK_INSERT_STATEMENT
@@ -186,7 +186,7 @@ package postgres
 //@ ensures err != nil ==> result == nil
 
 //@ func (*PostgresStoreWorker).createTasks
-//@ props C17 C05 C08 C02
+//@ props C17 C05 C08 C02 C20
 //@ nopanic C13
 //@ ghostdb store
 //@ stmt stmt TASK_INSERT_ALL_STATEMENT
@@ -196,7 +196,7 @@ package postgres
 //@ ensures err != nil ==> result == nil
 
 //@ func (*PostgresStoreWorker).completeTasks
-//@ props C17 C05 C08 C02
+//@ props C17 C05 C08 C02 C20
 //@ nopanic C13
 //@ ghostdb store
 //@ stmt stmt TASK_COMPLETE_BY_ROOT_ID_STATEMENT
@@ -206,7 +206,7 @@ package postgres
 //@ ensures err != nil ==> result == nil
 
 //@ func (*PostgresStoreWorker).updateTask
-//@ props C17 C07 C08 C02
+//@ props C17 C07 C08 C02 C20
 //@ nopanic C13
 //@ ghostdb store
 //@ stmt stmt TASK_UPDATE_STATEMENT
@@ -218,7 +218,7 @@ package postgres
 //@ loop 1 invariant rangeindex + 1 <= len(cmd.CurrentStates) && currentStates == maskprefix(cmd.CurrentStates, rangeindex + 1)
 
 //@ func (*PostgresStoreWorker).heartbeatTasks
-//@ props C17 C07 C02
+//@ props C17 C07 C02 C20
 //@ nopanic C13
 //@ ghostdb store
 //@ stmt stmt TASK_HEARTBEAT_STATEMENT
@@ -256,7 +256,7 @@ package postgres
 //@ ensures err != nil ==> txlog() == "" || txlog() == "begin,perform-err,rolledback" || txlog() == "begin,perform-err,rollback-failed" || txlog() == "begin,perform-ok,commit-failed"
 
 //@ func (*PostgresStoreWorker).readPromises
-//@ props C17 C02
+//@ props C17 C02 C20
 //@ nopanic C13
 //@ ghostdb store
 //@ requires cmd != nil
@@ -264,7 +264,7 @@ package postgres
 //@ ensures err == nil ==> result != nil
 
 //@ func (*PostgresStoreWorker).searchPromises
-//@ props C17 C02
+//@ props C17 C02 C20
 //@ nopanic C13
 //@ ghostdb store
 //@ requires cmd != nil
@@ -275,7 +275,7 @@ package postgres
 //@ ensures err == nil ==> result != nil
 
 //@ func (*PostgresStoreWorker).readSchedules
-//@ props C17 C02
+//@ props C17 C02 C20
 //@ nopanic C13
 //@ ghostdb store
 //@ requires cmd != nil
@@ -283,7 +283,7 @@ package postgres
 //@ ensures err == nil ==> result != nil
 
 //@ func (*PostgresStoreWorker).searchSchedules
-//@ props C17 C02
+//@ props C17 C02 C20
 //@ nopanic C13
 //@ ghostdb store
 //@ requires cmd != nil
@@ -293,7 +293,7 @@ package postgres
 //@ ensures err == nil ==> result != nil
 
 //@ func (*PostgresStoreWorker).readTasks
-//@ props C17 C02
+//@ props C17 C02 C20
 //@ nopanic C13
 //@ ghostdb store
 //@ requires cmd != nil
@@ -302,7 +302,7 @@ package postgres
 //@ ensures err == nil ==> result != nil
 
 //@ func (*PostgresStoreWorker).readEnqueueableTasks
-//@ props C17 C02
+//@ props C17 C02 C20
 //@ nopanic C13
 //@ ghostdb store
 //@ requires cmd != nil
